@@ -130,6 +130,9 @@ class Check:
             if p.get("outcome") == "ok":
                 max_len, cap = (8, 40) if self.tier == "quick" else (12, 400)
                 self.ctx.paths[cid] = gen.enumerate_paths(p.get("adj", {}), p.get("entry", 0), max_len, cap)
+            if "deep chain" in self.index[cid].get("origin", ""):
+                self.ctx.deep.append(cid)
+                continue
             if p.get("outcome") != "ok" or inf["outside"]:
                 # consistently failing inputs (DESIGN §2.4): parse error exits, or a block shared by
                 # two CFGs which makes the analysis raise
@@ -747,6 +750,10 @@ def run_c12(chk: Check) -> None:
 
     if len(chk.violations) < 5:
         sweeps.build_abort_sweep(chk, 4 if quick else 16, 16 if quick else 60)
+    if quick and len(chk.violations) < 5:
+        shared = [c for c in chk.ctx.with_subs if c in chk.ctx.contracts and chk.ctx.info[c]["lines"] <= 200 and len(chk.ctx.paths.get(c, [])) > 1]
+        key = lambda c: hashlib.sha256(f"shared:{chk.seed}:{c}".encode()).hexdigest()  # noqa: E731
+        sweeps.all_paths_sweep(chk, only=set(sorted(shared, key=key)[:12]), max_paths=14)
     if not quick:
         sweeps.all_paths_sweep(chk)
     paths_total = sum(len(v) for v in chk.ctx.paths.values())
